@@ -64,6 +64,9 @@ void market::unregister_and_destroy_client(pm_client& c) {
         auto it = std::find(clients.begin(), clients.end(), &c);
         __TBB_ASSERT(it != clients.end(), "Destroying of an unregistered client");
         clients.erase(it);
+#if ONETBB_VERIF
+        { long v[2] = { c.min_workers(), c.max_workers() }; __TBB_VERIF_REPORT(vr_market_unregister, this, v, 2); }
+#endif
     }
 
     auto client = static_cast<tbb_permit_manager_client*>(&c);
